@@ -1940,6 +1940,9 @@ impl Db {
 		}
 		if let Err(e) = self.inner.kill_logs(&self.inner) {
 			log::warn!(target: "parity-db", "Shutdown error: {:?}", e);
+			// Commits still queued when the workers left are processed here: `close` reports
+			// their failure like one of a worker.
+			self.inner.store_err(Err(e));
 		}
 		if let Err(e) = self.inner.lock_file.unlock() {
 			log::debug!(target: "parity-db", "Error removing file lock: {:?}", e);
